@@ -378,8 +378,10 @@ def finish(prop, rep):
         "wall_s": round(wall, 2),
         "violations": len(replay_paths),
     }
-    os.makedirs(os.path.join(env.VERIF, "evidence"), exist_ok=True)
-    with open(os.path.join(env.VERIF, "evidence", f"{prop.ID}.json"), "w") as f:
+    # sensitivity runs (VERIF_REPO set) must not overwrite the evidence of the real tree
+    evdir = os.path.join(env.VERIF, "evidence") if "VERIF_REPO" not in os.environ else os.path.join(env.WORK_ROOT, "sens_evidence")
+    os.makedirs(evdir, exist_ok=True)
+    with open(os.path.join(evdir, f"{prop.ID}.json"), "w") as f:
         json.dump(evidence, f, indent=1, default=str)
         f.write("\n")
     for line in rep.known_lines:
